@@ -160,29 +160,46 @@ SPEC = {
     "sizes": {"quick": 20000, "thorough": 200000},
     "search_n": 200000,
     "rule": ("X = EVERY script over {M merge(tag), N no-op closure, D drop sender, P poll recv (fresh or parked future), "
-             "C cancel recv, R drop receiver} up to length 10, and up to length 12 without N (quick; thorough: length 14 "
-             "with at most one N, plus length 11 with any number of N), only maximal scripts written (each contains the observations of all its "
-             "prefixes); Q = seeded scripts of length 15..60; the REAL channel is driven on one thread by a hand-written "
-             "poll loop with a counting waker, and every modify result, every poll's Pending/Ready(value) and the "
-             "cumulative wake count after every operation are compared EXACTLY with the extracted model (run_ops); "
-             "S = two OS threads, producer merges tags 0..n-1 then drops, consumer receives until None (4 modes incl. "
-             "permanent cancel/restart), checked by the extracted stress_ok; Z = end-to-end on mocknode: every round "
-             "adds a node to the mock cluster and issues 1/4/16 concurrent Session::refresh_metadata calls, all must be "
-             "answered Ok and get_cluster_state must show the mock's node count; non-trivial = scripts with at least one "
-             "poll and one merge, and all S cases; distinct = distinct case lines"),
+             "C cancel recv, R drop receiver} up to length 10, and up to 12 without N (quick; thorough: 14 with at most one N, "
+             "11 with any number of N); plus every script with 1..3 T (try_recv, <= 1 N) up to length 9 (11) and every script with "
+             "1..2 K (clearing closure `*slot = None`, <= 1 N) up to length 9 (11); no exhaustive script has both K and T; which "
+             "operations are available is decided by the runner's generator; only maximal scripts are written (each contains the "
+             "observations of its prefixes). Y = the same alphabet with an EAGER waker (the waker polls the parked future inside "
+             "wake(), reported as extra tokens) up to length 9 (12 with <= 1 N), and with 1..2 K up to 8 (10). Q = seeded scripts of "
+             "length 15..60 over the full alphabet incl. K and T. The REAL channel (hook H7b) is driven on one thread by a "
+             "hand-written poll loop; every modify result, poll outcome, try_recv value and the cumulative wake count after every "
+             "operation are compared EXACTLY with run_ops; on a mismatch spec_check decides viol/diff (scripts with K or T: always diff, "
+             "their specification clauses come from the API documentation, not the property text). U = the real MetadataUpdate::merge_* "
+             "functions (hook verif_metadata_update) on every script of length 5 (thorough 6) over 11 operations + seeded ones of length "
+             "6..40: per-step slot views and the final status of every oneshot channel compared exactly with Model/MetaUpdate.v; "
+             "status_ok / latest_peers decide viol. S = two OS threads, producer merges tags 0..n-1 then drops, consumer receives until "
+             "None (4 modes incl. permanent cancel/restart), extracted stress_ok; no consumer progress for 30 s after the producer "
+             "finished (or 300 s in total) = attempt failed: repeated once, one failure = skip-env, two = viol. Z = end-to-end on "
+             "mocknode, each scenario adds a node per round and issues refresh_metadata calls: mode 0 1/4/16 concurrent; mode 1 four "
+             "staged refreshes while a slow AddressTranslator keeps the cluster worker busy; mode 2 the next 1..3 metadata reads fail "
+             "(error reply / connection cut) while 1/3/6 refreshes are pending - every refresh must be answered (Ok or Err), then one more "
+             "must succeed; mode 3 use_keyspace calls alternate with refreshes under a busy worker; judged: every call returned, the "
+             "session shows the mock's node count; a scenario with an unexpected outcome is repeated once and the repetition is judged; "
+             "set-up failures = skip-env (tolerated up to max(3, 2%)). non-trivial = X/Y/Q scripts with a poll and a merge, all U/S/Z "
+             "cases that ran; distinct = distinct case lines"),
     "post": post,
     "extra_coverage": extra_coverage,
     "min_cases": {"quick": 500000, "thorough": 3000000},
     "nontrivial": lambda ln: "| skip-env" not in ln and (ln[0] in "SZU") or (ln[0] in "XYQ" and "P" in ln.split("|")[0][2:] and "M" in ln.split("|")[0][2:]),
     "trusted_base": [
-        "hook scylla::cluster::metadata::verif_merge_channel (newtype pass-throughs around Sender/Receiver/merge_channel)",
+        "hook H7b scylla::cluster::metadata::verif_merge_channel_b (newtype pass-throughs around Sender/Receiver/merge_channel; "
+        "its try_recv is a verbatim copy of the one-line body of Receiver::try_recv, pinned by the census) and hook "
+        "scylla::cluster::metadata::verif_metadata_update (runs the real merge functions; its Take copies the consumer's "
+        "answer loop of cluster/worker.rs, pinned by the census); hook H7 (verif_merge_channel) is no longer used",
         "tokio::sync::Notify is modelled for ONE waiter (notify_one / notified+enable / poll / drop); the model is "
         "validated against tokio 1.53.1 by the exact comparison above, it is not derived from tokio's source by proof",
         "Acquire/Release atomics and the slot mutex are modelled as sequentially consistent atomic steps",
-        "Receiver::try_recv (dead code outside the crate's tests) is in the model and in the theorems but not in the tie",
+        "Model/ClusterLoop.v (cluster worker select loop) is proved about, not extracted and not compared with the code; "
+        "a census pins the select! arms and the awaits it is written from",
     ],
     "assumptions": [
-        "merging = appending to a list of tags (the driver's closures always get_or_insert_default() and merge into it)",
+        "the channel model has three closure classes (merge / no-op / clear); the driver's own closures all merge "
+        "(census + C19_merge_never_clears)",
         "single producer / single consumer is enforced by the types (&mut self, endpoints not Clone)",
         "the recv future is dropped only between polls (at the await point)",
     ],
